@@ -24,17 +24,17 @@ var simSelectState uint64
 
 // Result of one run.
 type Result struct {
-	Seed     uint64      `json:"seed"`
-	Family   string      `json:"family"`
-	LogHash  string      `json:"log_hash"`
-	Viol     []Violation `json:"viol,omitempty"`
-	Stats    Stats       `json:"stats"`
-	Tail     []string    `json:"tail,omitempty"`
-	Plan     *Plan       `json:"plan,omitempty"`
+	Seed     uint64         `json:"seed"`
+	Family   string         `json:"family"`
+	LogHash  string         `json:"log_hash"`
+	Viol     []Violation    `json:"viol,omitempty"`
+	Stats    Stats          `json:"stats"`
+	Tail     []string       `json:"tail,omitempty"`
+	Plan     *Plan          `json:"plan,omitempty"`
 	Skipped  map[string]int `json:"skipped,omitempty"`
 	Judged   map[string]int `json:"judged,omitempty"`
-	WallUs   int64       `json:"wall_us"`
-	Leftover []string    `json:"leftover,omitempty"`
+	WallUs   int64          `json:"wall_us"`
+	Leftover []string       `json:"leftover,omitempty"`
 }
 
 // current driver (hooks are process-global)
